@@ -174,6 +174,17 @@ _ext("C08", "order rule: the index of the last goroutine is taken after the appe
 _ext("C16", "loop-exit rule on both writers (left early only by a failed write); all-paths dispatch of processInner (race/buckets, console/HTML); the frame measured for the widths is the loop's frame")
 _ext("C18", "loop-exit rule on the file loop of findRoots; the remote GOPATH is mapped to the probed local root")
 _ext("C19", "loop-exit rule on the frame loop of augmentGoroutine; search positions cut the text they were found in")
+# round 9 additions
+_ext("C01", "found-tests of search results in Call.init are tests against -1")
+_ext("C03", "an empty non-nil goroutine list never survives a line (scanner typestate)")
+_ext("C06", "package-level state and goroutines of package internal are exempt only in Main itself")
+_ext("C10", "the web handler's truncated dump reaches the parser as captured")
+_ext("C11", "empty reads are retried")
+_ext("C15", "the numbering does not reach into creation stacks")
+_ext("C16", "similarity compares the elided flag; -rel-path implies -rebase on all paths of Main")
+_ext("C18", "the existence probe follows symbolic links")
+_ext("C19", "receiver exclusion reasons; nil tests for the loaded file and the declaration; the declaration remembered starts before the line")
+_ext("C20", "scalar part of the similarity key (lock flag); augmentation nil tests")
 for k in list(CLAIMED): NA.pop(k, None)
 try:
     exec(open(os.path.join(V, "tools", "manifest_table.py")).read())
